@@ -1,9 +1,14 @@
 """C09 -- subtype search and irrelevant-type search return only what they promise.
 
 What Coq carries: the declarative relation SubA and its executable checker sub_ref, proved
-sound for both answers (C06: sub_ref_yes_sound / sub_ref_no_sound).  The searches themselves
-(find_subtypes, find_irrelevant_type: ~250 lines of randomised construction) are NOT
-modelled; every result they return on this run is validated instead: for each returned
+sound for both answers (C06: sub_ref_yes_sound / sub_ref_no_sound).  The deterministic skeleton of
+the searches (_find_types / find_subtypes / find_supertypes / to_type / find_irrelevant_type) IS
+modelled (Types/Search.v, theorems in Types/Properties_C09_search.v) with the randomised helpers
+(_construct_related_types, instantiate_type_constructor, choose_type, random.choice,
+get_irrelevant_parameterized_type) as oracle arguments; harness/c09_search.py records every call of
+the real functions made on this run together with the values those helpers returned and compares
+the model's answer.  The helpers themselves (~250 lines of randomised construction) are NOT
+modelled; every result the searches return on this run is validated instead: for each returned
 type the kernel proves the SubA derivation (translation validation through a verified
 checker), usability (no bare constructor when concrete types are requested), self-inclusion,
 and for irrelevant types the refutation of both directions.
@@ -15,6 +20,7 @@ import re
 
 import common as C
 import tymodel as T
+import c09_search as S
 
 CODES = {5: "reference-out-of-fuel", 8: "bare-constructor", 9: "self-inclusion", 40: "irrelevant-for-top"}
 SHAPES = {1: "core", 2: "projection", 3: "tyvar", 7: "ill-formed"}
@@ -83,6 +89,9 @@ def run(tier, seed, replay=None):
     from src import utils
     proof_ok = C.proof_part(rep, "Types/Properties_C09.v", ["Generated/Builtins.vo", "Types/Judge09.vo"],
                             ["Types", "Generated"])
+    # the model of the searches (Types/Search.v) and its theorems
+    proof_ok = C.proof_part_extra(rep, C.check_properties_file("Types/Properties_C09_search.v",
+                                                               ["Types/SearchCorr.vo"])) and proof_ok
     rng = random.Random(C.sub_seed(seed, "c09"))
     utils.random.r.seed(C.sub_seed(seed, "c09-impl"))
     langs = {l: T.Lang(l) for l in T.LANGS}
@@ -92,6 +101,23 @@ def run(tier, seed, replay=None):
     nres = 0
     crashes = []
     ndir = 32 if tier == "quick" else 400
+    recorder = S.Recorder(tu, utils, max_nested=30 if tier == "quick" else 60)
+    sgroups = []
+    sdropped = 0
+    recorder.install()
+    try:
+        sdropped = _explore(rng, tier, langs, tu, ntab, ndir, groups, crashes, recorder, sgroups)
+    finally:
+        recorder.uninstall()
+    nq = sum(len(g[3]) for g in groups)
+    nres = sum((len(c[4]) if c[0] == "sub" else 1) for g in groups for c in g[3])
+    return _judge(rep, tier, proof_ok, groups, crashes, nq, nres, recorder, sgroups, sdropped)
+
+
+def _explore(rng, tier, langs, tu, ntab, ndir, groups, crashes, recorder, sgroups):
+    nq = 0
+    nres = 0
+    sdropped = 0
     for i in range(ntab + ndir):
         lang = T.LANGS[i % 4]
         L = langs[lang]
@@ -117,7 +143,9 @@ def run(tier, seed, replay=None):
             tab = T.gen_table(rng, L, conforming=True)
         b = T.Builder(L, tab)
         pool = pool_objects(L, b, tab)
+        frames = recorder.begin_group()
         cases = []
+        qobjs = []
         directed = []
         for cid_, (ps_, _) in tab.items():
             # class Foo<X, Y : X>: queries Foo<A, in A>, Foo<A, A>, Foo<A, out A> with A a type that has subtypes
@@ -161,6 +189,7 @@ def run(tier, seed, replay=None):
             except Exception:               # noqa: BLE001
                 continue
             inc, conc = rng.random() < 0.5, rng.random() < 0.6
+            qobjs.append(o)
             try:
                 if rng.random() < 0.65:
                     rs = tu.find_subtypes(o, pool, include_self=inc, concrete_only=conc)
@@ -174,7 +203,33 @@ def run(tier, seed, replay=None):
             except Exception as e:          # noqa: BLE001
                 crashes.append((lang, t, type(e).__name__ + ": " + str(e)[:100]))
         groups.append((lang, tab, L.any_bid, cases))
+        # find_supertypes with a greatest bound is otherwise reached only from inside the searches: a few direct calls
+        # (recorded for the model correspondence only; a bound drawn among the query's own supertypes, or none)
+        for o_ in qobjs[:5]:
+            try:
+                sups_ = sorted(o_.get_supertypes(), key=str)
+                bd_ = rng.choice(sups_ + [None])
+                tu.find_supertypes(o_, pool, include_self=rng.random() < 0.5, bound=bd_, concrete_only=rng.random() < 0.5)
+            except Exception:               # noqa: BLE001
+                pass
+        # recorded calls of this table (the queries above and every call the searches issued themselves)
+        recorder.group = None
+        pool_terms = [T.reify(L, o_) for o_ in pool]
+        scases = []
+        for fr in frames:
+            try:
+                sc = S.frame_case(L, fr, pool_terms)
+            except Exception:               # noqa: BLE001  (an object outside the term language)
+                sc = None
+            if sc is None:
+                sdropped += 1
+            else:
+                scases.append(sc)
+        sgroups.append((lang, tab, L.any_bid, pool_terms, scases))
+    return sdropped
 
+
+def _judge(rep, tier, proof_ok, groups, crashes, nq, nres, recorder, sgroups, sdropped):
     def ccase(c):
         if c[0] == "sub":
             return "CSub %s %s %s %s" % (T.cterm(c[1]), C.cbool(c[2]), C.cbool(c[3]), C.clist(c[4], T.cterm))
@@ -252,6 +307,14 @@ def run(tier, seed, replay=None):
     # an exception returns nothing, so it cannot violate "every type returned ..."; internal failures are
     # C18's subject.  They are counted in the evidence (coverage.exceptions / exception_samples).
     rep.add(exception_samples=[dict(lang=l_, term=T.cterm(t_), error=e_) for l_, t_, e_ in crashes[:5]])
+    # model correspondence of the searches themselves (Types/Search.v against the recorded calls)
+    import time as _time
+    t_s = _time.time()
+    scov = S.evaluate(rep, sgroups)
+    scov["search_eval_wall_s"] = round(_time.time() - t_s, 1)
+    scov["search_calls_dropped_oracle_raised_or_unreifiable"] = sdropped
+    scov["search_calls_seen"] = dict(recorder.stats)
+    rep.add(**scov)
     if not proof_ok and not rep.violations:
         rep.violation("proof", rep.proof_broken, dict(broken=rep.proof_broken), no_input=True)
     rep.add(programs=nq, queries=nq, results=nres, evaluations=nres, distinct_nontrivial=ncert,
@@ -263,6 +326,8 @@ def run(tier, seed, replay=None):
                  "types. 'programs' counts queries. distinct_nontrivial = results whose derivation / refutation was checked by the kernel",
             samples=[dict(lang=groups[0][0], case=[str(x) for x in groups[0][3][0]])] if groups and groups[0][3] else [dict(note="no case")],
             trusted_base=C.TRUSTED_BASE_COMMON + [
-                "the searches are not modelled: each explored result is validated by the proved-sound reference checker (sub_ref) in the kernel"])
+                "the randomised helpers of the searches (_construct_related_types, instantiate_type_constructor, choose_type, "
+                "get_irrelevant_parameterized_type) are not modelled: they enter the search model (Types/Search.v) as oracle answers "
+                "recorded from the real run, and each explored result is validated by the proved-sound reference checker (sub_ref) in the kernel"])
     rep.assumptions = ["validation covers the queries explored by this run (synthetic tables), not all inputs"]
     return rep.finish()
